@@ -1,13 +1,14 @@
 (** C10 — rainfall-runoff models never create water and keep stores within bounds.
     Only statements, each closed by [exact <lemma>]; models in Kernels/*.v, proofs in
-    KernelProofs/{Gr4jMath,Gr4jUH,Gr4j,Simhyd,Surm,Coeff,Sacramento}.v.  All statements are
+    KernelProofs/{Gr4jMath,Gr4jUH,Gr4j,Simhyd,Surm,Coeff,Sacramento,SacramentoLand,SacramentoBudget}.v.  All statements are
     over exact reals (instance RArith) and hold for series of ANY length.  The parameter-range
     predicates are boolean and written out here. *)
 From Coq Require Import Reals List Bool ZArith.
 From OW Require Import Base.Arith Base.RInst Base.Mealy
   Kernels.Gr4j Kernels.Simhyd Kernels.Surm Kernels.Coeff Kernels.Sacramento Num.Gr4jSpec
   KernelProofs.RRCommon KernelProofs.Gr4jUH KernelProofs.Gr4j
-  KernelProofs.Simhyd KernelProofs.Surm KernelProofs.Coeff KernelProofs.Sacramento.
+  KernelProofs.Simhyd KernelProofs.Surm KernelProofs.Coeff KernelProofs.Sacramento
+  KernelProofs.SacramentoLand KernelProofs.SacramentoBudget.
 Import ListNotations.
 Local Open Scope R_scope.
 
@@ -213,17 +214,16 @@ Theorem C10_sac_components_add_up : forall p st io,
 Proof. exact sac_components_add_up. Qed.
 Print Assumptions C10_sac_components_add_up.
 
-(** PARTIAL.  Proved: for one time step, IF the land phase (evaporation, resupply, the
-    drainage-and-percolation loop) delivers non-negative fluxes, then runoff = surfaceRunoff +
-    baseflow, 0 <= baseflow <= runoff, every output (incl. actualET) is non-negative and the
-    unit-hydrograph buffer stays non-negative.
-    MISSING (covered only by the oracle on the implementation): (1) the land-phase invariant
-    itself: 0 <= uztwc <= uztwm, 0 <= uzfwc <= uzfwm, 0 <= lztwc <= lztwm, 0 <= lzfpc <= lzfpm,
-    0 <= lzfsc <= lzfsm, uztwc <= adimc <= uztwm + lztwm through the loop with its data-dependent
-    increment count, and non-negativity of its fluxes; (2) the whole-step water budget
-    rain = runoff + actualET + losses + change in stores, hence cumulative runoff + AET <=
-    cumulative rain.  (1) is in fact FALSE for some parameters accepted by C10_sac_ok: see the
-    four _refuted theorems below (two known findings). *)
+(** PARTIAL (unconditional form).  Proved: for one time step, IF the land phase (evaporation,
+    resupply, the drainage-and-percolation loop) delivers non-negative fluxes, then runoff =
+    surfaceRunoff + baseflow, 0 <= baseflow <= runoff, every output (incl. actualET) is
+    non-negative and the unit-hydrograph buffer stays non-negative.
+    The hypothesis cannot be removed for all parameters accepted by C10_sac_ok: the land-phase
+    store invariant is FALSE there (four _refuted theorems below, two known findings).  What is
+    MISSING relative to the property is therefore exactly: the store invariant and the water
+    balance WITHOUT the three guards of C10_sacramento_guarded / C10_sacramento_budget_guarded
+    further below (lzfpm <= lzfsm, lztwm >= 10, and the per-step guard pre_guard); outside those
+    guards the clauses are covered only by the oracle on the implementation. *)
 Theorem C10_sacramento_c10_partial : forall p st io, C10_sac_ok p = true -> C10_qq_ok (qq st) ->
   0 <= fst io -> 0 <= snd io ->
   let l := sac_land p st io in
@@ -273,3 +273,71 @@ Theorem C10_sac_lzfsc_negative_refuted : exists p s0 s1 s2 s3 s4 s5 io, C10_sac_
   lzfsc (fst (sac_run p (sac_init p s0 s1 s2 s3 s4 s5) io)) < 0.
 Proof. exact sac_lzfsc_negative_run_refuted. Qed.
 Print Assumptions C10_sac_lzfsc_negative_refuted.
+
+(** ** Sacramento under guards: store invariant, outputs, water balance (all proved) *)
+(** The three guards exclude exactly the situations of the refutations above:
+    (g1) lzfpm <= lzfsm  (then the split fraction fracp is <= 1; a per-iteration dynamic form
+         [inc_guard] is in KernelProofs/SacramentoLand.v);
+    (g2) 10 <= lztwm     (then 2*pinc <= lztwm, since the loop increments are < 5 mm);
+    (g3) [sac_guarded p st io]: at every step of the run [pre_guard] holds, i.e. after the
+         evaporation and the free-to-tension transfer the numerator adimc - e1 - uztwc of the
+         ADIMP ratio is still >= 0, and PET <= uztwm + lztwm.  A static sufficient condition
+         per step is  uztwc + uzfwc <= adimc  and PET in range (C10_sac_pre_guard_suff).
+    [st_inv] is the store invariant, written out in C10_sac_st_inv_written_out. *)
+Theorem C10_sac_st_inv_written_out : forall p st, st_inv p st <->
+  (0 <= uztwc st <= uztwm p /\ 0 <= uzfwc st <= uzfwm p /\ 0 <= lztwc st <= lztwm p /\
+   0 <= alzfpc st <= lzfpm p * (1 + side p) /\ 0 <= alzfsc st <= lzfsm p * (1 + side p) /\
+   uztwc st <= adimc st <= uztwc st + lztwm p).
+Proof. exact st_inv_iff. Qed.
+Print Assumptions C10_sac_st_inv_written_out.
+
+Theorem C10_sac_pre_guard_suff : forall p st evapt, C10_sac_ok p = true -> st_inv p st ->
+  0 <= evapt <= uztwm p + lztwm p -> uztwc st + uzfwc st <= adimc st -> pre_guard p st evapt.
+Proof. exact pre_guard_suff. Qed.
+Print Assumptions C10_sac_pre_guard_suff.
+
+(** whole runs of any length: every store stays between zero and its capacity, the UH buffer stays
+    non-negative, and every output satisfies runoff = surfaceRunoff + baseflow,
+    0 <= baseflow <= runoff, all outputs (incl. actualET) >= 0 *)
+Theorem C10_sacramento_guarded : forall p io st, C10_sac_ok p = true -> lzfpm p <= lzfsm p -> 10 <= lztwm p ->
+  st_inv p st -> C10_qq_ok (qq st) -> io_nonneg io -> sac_guarded p st io ->
+  st_inv p (fst (sac_run p st io)) /\ C10_qq_ok (qq (fst (sac_run p st io))) /\
+  Forall (fun o => o_runoff o = o_surface o + o_baseflow o /\ 0 <= o_baseflow o <= o_runoff o /\
+                   0 <= o_surface o /\ 0 <= o_runoff o /\ 0 <= o_imperv o /\ 0 <= o_aet o)
+         (snd (sac_run p st io)).
+Proof. exact sacramento_c10_guarded. Qed.
+Print Assumptions C10_sacramento_guarded.
+
+(** water held per unit catchment area *)
+Definition C10_sac_stock (p : sac_par (T:=R)) (st : sac_st (T:=R)) : R :=
+  (1 - pctim p - adimp p) * (uztwc st + uzfwc st + lztwc st + alzfpc st + alzfsc st)
+  + adimp p * adimc st + C10_sac_uh_store p (qq st).
+
+(** no water created: stores after + cumulative (runoff + actualET) <= stores before + cumulative
+    rain, for the whole run and (second theorem) for every prefix of the run *)
+Theorem C10_sacramento_budget_guarded : forall p, C10_sac_ok p = true -> lzfpm p <= lzfsm p -> 10 <= lztwm p ->
+  forall io st, st_inv p st -> C10_qq_ok (qq st) -> io_nonneg io -> sac_guarded p st io ->
+  C10_sac_stock p (fst (sac_run p st io))
+    + rr_sum (map (fun o => o_runoff o + o_aet o) (snd (sac_run p st io)))
+    <= C10_sac_stock p st + rr_sum (map fst io).
+Proof. exact sacramento_budget_guarded. Qed.
+Print Assumptions C10_sacramento_budget_guarded.
+
+Theorem C10_sacramento_cumulative_guarded : forall p, C10_sac_ok p = true -> lzfpm p <= lzfsm p -> 10 <= lztwm p ->
+  forall io st t, st_inv p st -> C10_qq_ok (qq st) -> io_nonneg io -> sac_guarded p st io ->
+  rr_sum (firstn t (map (fun o => o_runoff o + o_aet o) (snd (sac_run p st io))))
+    <= rr_sum (firstn t (map fst io)) + C10_sac_stock p st.
+Proof. exact sacramento_cumulative_guarded. Qed.
+Print Assumptions C10_sacramento_cumulative_guarded.
+
+(** the model's own initial state satisfies the invariant and holds no water; the guards are
+    satisfiable on a non-empty run *)
+Theorem C10_sac_zero_state : forall p, C10_sac_ok p = true ->
+  st_inv p (sac_init p 0 0 0 0 0 0) /\ C10_sac_stock p (sac_init p 0 0 0 0 0 0) = 0.
+Proof. exact (fun p H => conj (st_inv_init0 p H) (sac_stock_init0 p)). Qed.
+Print Assumptions C10_sac_zero_state.
+
+Example C10_sac_guarded_satisfiable : exists p io, C10_sac_ok p = true /\ lzfpm p <= lzfsm p /\ 10 <= lztwm p /\
+  st_inv p (sac_init p 0 0 0 0 0 0) /\ C10_qq_ok (qq (sac_init p 0 0 0 0 0 0)) /\ io_nonneg io /\ io <> [] /\
+  sac_guarded p (sac_init p 0 0 0 0 0 0) io.
+Proof. exact sac_guarded_satisfiable. Qed.
